@@ -36,11 +36,65 @@ def defined_in(p):
     return out
 
 
+def yaml_defs(p):
+    """(name, context) -> module dict, only for files without any defaults (so the YAML entry is the whole module)"""
+    out = {}
+    has_defaults = any(d.get("defaults") for docs in p["files"].values() for d in docs)
+    if has_defaults:
+        return None
+    for kind, m, path in projcheck.yaml_modules(p):
+        ctx = m.get("context", "default")
+        for c in (ctx if isinstance(ctx, list) else [ctx]):
+            out[(m.get("name"), c)] = m
+    return out
+
+
+def leaf_optional_dropped(p, b, ydefs, par):
+    """a soft dependency on a module that has no dependencies of its own, is not disabled and conflicts with nothing
+    selected must be taken when it is reached"""
+    mods = b["modules"]
+    names = {x["name"] for x in mods}
+    provided = {f for x in mods for f in (x.get("provides") or [])}
+    conflicted = {c for x in mods for c in (x.get("conflicts") or [])}
+    disabled0 = set(b.get("disabled0") or [])
+    ch = chain(par, b["builder"])
+    # names that get dependencies from elsewhere when they are selected (if-then deps of other modules)
+    conditioned = {d[1] for x in mods for d in x["selects"] if d[0] in ("ih", "is")}
+    for x in mods:
+        for d in x["selects"]:
+            if d[0] == "s" or (d[0] == "is" and d[1] in names):
+                t = d[-1]
+                if t in names or t in provided or t in conditioned:
+                    continue
+                ctx = next((c for c in ch if (t, c) in ydefs), None)
+                if ctx is None:
+                    continue
+                y = ydefs[(t, ctx)]
+                if y.get("selects") or y.get("depends") or y.get("tasks"):
+                    continue
+                yprov = set(y.get("provides") or []) | set(y.get("provides_unique") or [])
+                yconf = set(y.get("conflicts") or []) | set(y.get("provides_unique") or [])
+                if t in disabled0 or yprov & disabled0 or t in conflicted or yprov & conflicted or yconf & (names | provided):
+                    continue
+                return (x["name"], d, ctx)
+    return None
+
+
 def oracle(chk, p, r, m):
     if projrun.impl_status(r) != "ok":
         return
     par = tree_of(p)
     defs = defined_in(p)
+    ydefs = yaml_defs(p)
+    if ydefs is not None:
+        for b in r["dump"]:
+            if b["decision"] == "built":
+                bad = leaf_optional_dropped(p, b, ydefs, par)
+                if bad:
+                    chk.fail_oracle("order:available-optional-dropped",
+                                    f"{b['builder']}/{b['app']}: {bad[0]} optionally depends on {bad[1][-1]} (context {bad[2]}), which has no dependencies, is not disabled and conflicts with nothing selected, yet it is not in the build",
+                                    {"project": p, "build": [b["builder"], b["app"]]})
+                    break
     for b in r["dump"]:
         if b["decision"] != "built":
             continue
@@ -69,41 +123,53 @@ def nontrivial(chk, p, r, m):
     return any(b["decision"] == "built" and features(b) for b in r.get("dump", []))
 
 
-def drop_failed_optional(p, r):
-    """metamorphic partner: remove one optional dependency that certainly failed in every build
-    (its target is selected nowhere and provided by no selected module) from the YAML"""
+def drop_failed_optional(p, r, rng=None):
+    """metamorphic partner: remove one optional dependency `?x` that is unresolved in EVERY configured build
+    (x selected nowhere, no selected module provides x). In those builds it "cannot be resolved", so they must not change."""
     blds = projcheck.built(r)
     if not blds:
         return None
-    allsel = set()
-    allprov = set()
+    allsel, allprov = set(), set()
     for b in blds:
         for x in b["modules"]:
             allsel.add(x["name"])
             allprov |= set(x.get("provides") or [])
-    # a soft dep on a name nobody defines can never resolve in any build
-    defs = set(defined_in(p))
-    provided_anywhere = set()
-    for kind, m, path in projcheck.yaml_modules(p):
-        provided_anywhere |= set(m.get("provides") or []) | set(m.get("provides_unique") or [])
-    for docs in p["files"].values():
-        for d in docs:
-            for c in (d.get("contexts") or []) + (d.get("builders") or []):
-                provided_anywhere |= set(c.get("provides") or []) | set(c.get("provides_unique") or [])
     q = copy.deepcopy(p)
+    cands = []
     for kind, m, path in projcheck.yaml_modules(q):
         for key in ("selects", "depends"):
             l = m.get(key)
-            if not l:
+            if not l or any(isinstance(z, str) and z.startswith("-") for z in l):
                 continue
             for i, e in enumerate(l):
-                if isinstance(e, str) and e.startswith("?") and e[1:] not in defs and e[1:] not in provided_anywhere and not e[1:].startswith("-"):
-                    # removing entries must not disturb '-name' removals
-                    if any(isinstance(z, str) and z.startswith("-") for z in l):
-                        continue
-                    del l[i]
-                    return q
-    return None
+                if isinstance(e, str) and e.startswith("?") and e[1:] not in allsel and e[1:] not in allprov and not e[1:].startswith("-"):
+                    cands.append((l, i))
+                elif isinstance(e, dict):
+                    for cond, sub_l in e.items():
+                        if len(sub_l) > 1:      # keep the map entry non-empty
+                            for j, x in enumerate(sub_l):
+                                if isinstance(x, str) and x.startswith("?") and x[1:] not in allsel and x[1:] not in allprov:
+                                    cands.append((sub_l, j))
+    ok = lambda x: isinstance(x, str) and x.startswith("?") and x[1:] not in allsel and x[1:] not in allprov
+    sel = q.get("args", {}).get("select")
+    if sel and len(sel) > 1:
+        cands += [(sel, i) for i, x in enumerate(sel) if ok(x)]
+    for docs in q["files"].values():
+        for d in docs:
+            for cx in (d.get("contexts") or []) + (d.get("builders") or []):
+                l = cx.get("selects")
+                if l and len(l) > 1:
+                    cands += [(l, i) for i, x in enumerate(l) if ok(x)]
+    if not cands:
+        return None
+    if isinstance(rng, int):          # enumerate: the rng-th candidate
+        if rng >= len(cands):
+            return None
+        l, i = cands[rng]
+    else:
+        l, i = cands[0] if rng is None else rng.choice(cands)
+    del l[i]
+    return q
 
 
 def run(chk):
@@ -117,7 +183,7 @@ def run(chk):
     pairs = []
     for p, r, m in results:
         if projrun.impl_status(r) == "ok":
-            q = drop_failed_optional(p, r)
+            q = drop_failed_optional(p, r, random.Random(projcheck.phash(p)))
             if q is not None:
                 pairs.append((p, r, q))
         if len(pairs) >= (80 if chk.tier == "quick" else 3000):
@@ -126,14 +192,45 @@ def run(chk):
     for (p, r, q), r2 in zip(pairs, res2):
         chk.count("metamorphic:optional-deleted")
         chk.evaluations += 1
-        a = {(b["builder"], b["app"]): (b["decision"], [x["name"] for x in b.get("modules", [])]) for b in r["dump"]}
-        b2 = {(b["builder"], b["app"]): (b["decision"], [x["name"] for x in b.get("modules", [])]) for b in r2["dump"]}
-        if projrun.impl_status(r2) != "ok" or a != b2 or projrun.canon_impl_ninja(r["ninja"]) != projrun.canon_impl_ninja(r2["ninja"]):
-            # module envs differ legitimately? no: the removed dep never contributed a module
-            chk.fail_oracle("order:optional-not-invisible", "deleting an unresolvable optional dependency changed the result",
-                            {"project": p, "without_optional": q})
+        # only builds configured in the original run are compared: there the dependency was unresolved
+        a = {(b["builder"], b["app"]): [x["name"] for x in b["modules"]] for b in r["dump"] if b["decision"] == "built"}
+        b2 = {(b["builder"], b["app"]): [x["name"] for x in b.get("modules", [])] for b in r2["dump"] if (b["builder"], b["app"]) in a}
+        if projrun.impl_status(r2) != "ok" or a != b2:
+            chk.fail_oracle("order:optional-not-invisible", "deleting an optional dependency that is unresolved in every configured build changed those builds",
+                            {"project": p, "without_optional": q, "before": {str(k): v for k, v in a.items()}, "after": {str(k): v for k, v in b2.items()}})
     chk.assumptions = ["shadowing oracle computes the nearest defining context from the YAML files"]
-    return chk.finish()
+
+    def check_pair(p, r, q):
+        r2 = projrun.run_impl(q)
+        a = {(b["builder"], b["app"]): [x["name"] for x in b["modules"]] for b in r["dump"] if b["decision"] == "built"}
+        b2 = {(b["builder"], b["app"]): [x["name"] for x in b.get("modules", [])] for b in r2["dump"] if (b["builder"], b["app"]) in a}
+        if projrun.impl_status(r2) != "ok" or a != b2:
+            return ("order:optional-not-invisible", "deleting an optional dependency that is unresolved in every configured build changed those builds",
+                    {"project": p, "without_optional": q, "before": {str(k): v for k, v in a.items()}, "after": {str(k): v for k, v in b2.items()}})
+        return None
+
+    def search():
+        """model and implementation disagree on a module list: try every deletable optional dependency of those projects"""
+        tried = 0
+        for what, case in chk.disagree[:6]:
+            p = case.get("project")
+            if not p:
+                continue
+            r = projrun.run_impl(p)
+            if projrun.impl_status(r) != "ok":
+                continue
+            for k in range(40):
+                q = drop_failed_optional(p, r, k)
+                if q is None:
+                    break
+                tried += 1
+                f = check_pair(p, r, q)
+                if f:
+                    chk.search_note = f"found after {tried} directed deletions"
+                    return f
+        chk.search_note = f"{tried} directed optional-dependency deletions on the disagreeing projects, none changed a configured build"
+        return None
+    return chk.finish(search)
 
 
 def replay(chk, path):
